@@ -1,0 +1,33 @@
+// Unless explicitly stated otherwise all files in this repository are licensed
+// under the Apache License Version 2.0.
+// This product includes software developed at Datadog (https://www.datadoghq.com/).
+// Copyright 2025-present Datadog, Inc.
+
+//go:build verif
+
+package tcp
+
+import "sync/atomic"
+
+// VerifSeqFn, when set, replaces the random TCP sequence numbers.
+// perProbe is false for the per-run sequence number and true for Paris-mode per-probe numbers.
+type VerifSeqFn func(perProbe bool, ttl uint8) uint32
+
+var verifSeqFn atomic.Pointer[VerifSeqFn]
+
+// VerifSetSeqFn registers (or with nil, removes) the sequence number override
+func VerifSetSeqFn(fn VerifSeqFn) {
+	if fn == nil {
+		verifSeqFn.Store(nil)
+		return
+	}
+	verifSeqFn.Store(&fn)
+}
+
+func verifSeqOverride(perProbe bool, ttl uint8) (uint32, bool) {
+	fn := verifSeqFn.Load()
+	if fn == nil {
+		return 0, false
+	}
+	return (*fn)(perProbe, ttl), true
+}
